@@ -183,6 +183,41 @@ theorem inv_queue {s : St} {i : Nat} {it : Item} {outs : List Outcome} (hi : Inv
     · simp at hpx
     · exact hi.svc j x h hkx hpx
 
+/-- The end of the wait of `stopAllTasks` records how it ended and what was fetched; nothing that the accounting
+    invariant speaks about changes. -/
+theorem inv_stopper {s : St} {i : Nat} {it : Item} {w : Option Bool} {ss : Bool} {pe : CtrlRet} (hi : Inv s)
+    (hit : s.items[i]? = some it) :
+    Inv { s with items := s.items.set i { it with waited := w, sawSent := ss, passErr := pe } } := by
+  have hloc := hi.loc i it hit
+  have e1 : Item.cw { it with waited := w, sawSent := ss, passErr := pe } = it.cw := rfl
+  have e2 : Item.ct { it with waited := w, sawSent := ss, passErr := pe } = it.ct := rfl
+  have e3 : Item.cm { it with waited := w, sawSent := ss, passErr := pe } = it.cm := rfl
+  have e4 : Item.cg { it with waited := w, sawSent := ss, passErr := pe } = it.cg := rfl
+  have e5 : Item.cc { it with waited := w, sawSent := ss, passErr := pe } = it.cc := rfl
+  have e6 : Item.pendingCheck { it with waited := w, sawSent := ss, passErr := pe } = it.pendingCheck := rfl
+  constructor
+  · simp only [sumBy_set _ _ _ _ _ hit, e1]; have := hi.w; omega
+  · simp only [sumBy_set _ _ _ _ _ hit, e2]; have := hi.t; omega
+  · simp only [sumBy_set _ _ _ _ _ hit, e3]; have := hi.m; omega
+  · simp only [sumBy_set _ _ _ _ _ hit, e4]; have := hi.g; omega
+  · simp only [sumBy_set _ _ _ _ _ hit, e5]; have := hi.c; omega
+  · have := sumNat_set Item.reps _ _ _ { it with waited := w, sawSent := ss, passErr := pe } hit
+    have := hi.reps
+    simp at *; omega
+  · exact hi.cap
+  · exact hi.feedPanic
+  · intro j x hx
+    rcases getElem?_set_cases hx with ⟨_, rfl⟩ | ⟨_, h⟩
+    · exact ⟨hloc.bal, hloc.retW, hloc.retM, hloc.api, hloc.exec, hloc.cretC, hloc.cretS, hloc.bound⟩
+    · exact hi.loc j x h
+  · intro a b
+    have := hi.stop a b
+    simp only [sumBy_set _ _ _ _ _ hit, e6]; omega
+  · intro j x hx hkx hpx
+    rcases getElem?_set_cases hx with ⟨_, rfl⟩ | ⟨_, h⟩
+    · exact hi.svc i it hit hkx hpx
+    · exact hi.svc j x h hkx hpx
+
 theorem set_getElem?_self {l : List Item} {a b : Item} {i : Nat} (h : l[i]? = some a) :
     (l.set i b)[i]? = some b := by
   have hlt : i < l.length := by
@@ -366,6 +401,14 @@ theorem step_inv {s s' : St} {a : Act} (hi : Inv s) (h : step s a = some s') : I
       split at h
       · rename_i hc; cases h; exact inv_queue hi hit hc.1 hc.2
       · cases h
+  | stopper i timeout =>
+    simp only [step] at h
+    split at h
+    · cases h
+    · rename_i it hit
+      split at h
+      · cases h; exact inv_stopper hi hit
+      · cases h
 
 theorem run_inv {as : List Act} : ∀ {s s' : St}, Inv s → run s as = some s' → Inv s' := by
   induction as with
@@ -413,6 +456,7 @@ theorem run_chanSet {as : List Act} : ∀ {s s' : St}, run s as = some s' → s'
       | recv => simp only [step] at hs1; (repeat' split at hs1) <;> cases hs1 <;> exact ⟨rfl, rfl⟩
       | spawn it => simp only [step] at hs1; (repeat' split at hs1) <;> cases hs1; exact ⟨rfl, rfl⟩
       | queue i outs => simp only [step] at hs1; (repeat' split at hs1) <;> cases hs1; exact ⟨rfl, rfl⟩
+      | stopper i timeout => simp only [step] at hs1; (repeat' split at hs1) <;> cases hs1; exact ⟨rfl, rfl⟩
 
 theorem allDone_iff (s : St) : s.allDone = true ↔ ∀ it ∈ s.items, it.done = true := by
   simp [St.allDone]
